@@ -43,6 +43,9 @@ MDesc == /\ Consume("desc") /\ Ev.ok
          /\ Ev.openedmeta = 0 /\ Ev.openedhdr = 0 /\ Ev.openedpayload = 0
          /\ Ev.pksame /\ Ev.addrmeta /\ Ev.addrmsg
          /\ Ev.descjoin = 0 /\ Ev.descgrew = 0      \* a descriptor (no signed secret) is never accepted as an invitation
+         \* deriving the descriptor leaves the group it was given intact, and what the member seals with that object
+         \* afterwards is as closed to the descriptor as what it sealed before
+         /\ (("groupsame" \in DOMAIN Ev) => Ev.groupsame) /\ (("afterhdr" \in DOMAIN Ev) => Ev.afterhdr = 0)
          /\ UNCHANGED naccepted
 
 MNext == MReset \/ MJoin \/ MJoinFlips \/ MJoinBase \/ MDesc
